@@ -75,4 +75,33 @@ def SentWF (env : Env B H) (attach : Message B H → Option Nat) : Sent B H → 
     isDispatched t = true ∧ raw.length ≤ maxLen env.net t ∧ raw.length < 2^64 ∧
     env.decBody t raw = .ok v ∧ attach (.body t v) = some att.length
 
+/-! ## fragment schedules with pauses (the timing clause: "within the I/O timeouts") -/
+
+/-- every wait of the stream is shorter than `lim` ms -/
+def WaitsBelow (lim : Nat) (ts : TStream) : Prop := ∀ p ∈ ts, p.1 < lim
+
+/-- the bytes of a timed stream -/
+def tbytes (ts : TStream) : Bytes := ts.map (·.2)
+
+/-- **the pauses respect the per-state read timeout**, stated on the sender's side: while message `m`
+is in transit no wait reaches `BODY_IO_TIMEOUT`, and while its 11 frame-header bytes are awaited (the
+codec is in state `None`) no wait reaches `HEADER_IO_TIMEOUT`; then the same for the messages after
+it.  (Since `HEADER_IO_TIMEOUT < BODY_IO_TIMEOUT` this says: header bytes wait < 2 s, everything
+after an accepted header — body, item count, streamed block headers, attachment — waits < 60 s.) -/
+def DelaysOK (net : NetCfg) : List (Sent B H) → TStream → Prop
+  | [], ts => ts = []
+  | m :: ms, ts =>
+    WaitsBelow HEADER_IO_TIMEOUT_MS (ts.take MSG_HEADER_LEN) ∧
+    WaitsBelow BODY_IO_TIMEOUT_MS (ts.take (encodeSent net m).length) ∧
+    DelaysOK net ms (ts.drop (encodeSent net m).length)
+
+/-- as `DelaysOK`, but the wait for the *first* byte of a message (the codec is idle, nothing of the
+message pulled yet) may be arbitrarily long: the read times out with nothing lost and is retried -/
+def DelaysOKIdle (net : NetCfg) : List (Sent B H) → TStream → Prop
+  | [], ts => ts = []
+  | m :: ms, ts =>
+    WaitsBelow HEADER_IO_TIMEOUT_MS ((ts.take MSG_HEADER_LEN).drop 1) ∧
+    WaitsBelow BODY_IO_TIMEOUT_MS ((ts.take (encodeSent net m).length).drop 1) ∧
+    DelaysOKIdle net ms (ts.drop (encodeSent net m).length)
+
 end GV.Codec
